@@ -450,6 +450,8 @@ def mk_slice(inner, lo, hi):
     lo, hi = lin_norm(lo), lin_norm(hi)
     if lo == '0':
         lo = ''
+    if isinstance(inner, str) and hi == 'len(%s)' % inner:
+        hi = ''                      # x[a:len(x)] is x[a:]
     if isinstance(inner, list):
         its = merge_consts(inner)
         if len(its) == 1 and its[0][0] == 'SLICE':
@@ -878,6 +880,10 @@ class Frame(object):
             # iterating a (filtered) identity comprehension is iterating the underlying collection (with the filter)
             t = re.sub(re.escape(itv.var) + r'(?![\d_])(?!\.\d)', bname, itv.coll)
             return None, t
+        # list(X) / tuple(X) / iter(X) as an iteration source yields the elements of X (a snapshot differs only under mutation)
+        _m = re.match(r'^(?:list|tuple|iter)\((.*)\)$', t)
+        if _m and isinstance(itv, Sym) and _balanced(_m.group(1)) and ', ' not in _toplevel(_m.group(1)):
+            t = _m.group(1)
         if t in self.sc.unroll:
             return self.sc.unroll[t], t
         if isinstance(itv, ListV) and len(itv.elems) <= 12:
@@ -1355,6 +1361,9 @@ class Frame(object):
         path = '%s.%s' % (bt, node.attr)
         if path in st.env:
             return st.env[path]
+        if isinstance(node.value, ast.Name) and node.value.id not in st.env and \
+                self.module.imports.get(node.value.id, (None, 0))[1] is None and node.value.id in self.module.imports:
+            return Sym(path, nonnull=True)          # function / class of an imported module (copy.copy, hashlib.new ...)
         if isinstance(base, Sym) and node.attr in base.attrs:
             return base.attrs[node.attr]
         if isinstance(base, ClassV):
@@ -1695,6 +1704,14 @@ class Frame(object):
         return Sym('(%s + %s)' % (render(l), render(r)))
 
     def binop(self, op, l, r):
+        if isinstance(l, ListV) and isinstance(r, ListV) and l.kind == 'set' and r.kind == 'set' and \
+                isinstance(op, (ast.BitOr, ast.BitAnd, ast.Sub)):
+            lt, rt = [render(e) for e in l.elems], [render(e) for e in r.elems]
+            if isinstance(op, ast.BitOr):
+                return ListV(l.elems + [e for e, t in zip(r.elems, rt) if t not in lt], 'set')
+            if isinstance(op, ast.BitAnd):
+                return ListV([e for e, t in zip(l.elems, lt) if t in rt], 'set')
+            return ListV([e for e, t in zip(l.elems, lt) if t not in rt], 'set')
         if isinstance(op, ast.Mult):
             for a, b in ((l, r), (r, l)):
                 if isinstance(a, Bytes):
@@ -1736,6 +1753,8 @@ class Frame(object):
             hi = self.text(sl.upper, st) if sl.upper is not None else ''
             if sl.step is not None:
                 return Sym('%s[%s:%s:%s]' % (render(base), lo, hi, self.text(sl.step, st)))
+            if isinstance(base, Const) and type(base.value) is str and re.match(r'^-?\d*$', lo) and re.match(r'^-?\d*$', hi):
+                return Const(base.value[(int(lo) if lo else None):(int(hi) if hi else None)])
             if isinstance(base, Bytes):
                 its = merge_consts(base.items)
                 if len(its) == 1 and its[0][0] == 'C':
@@ -1819,6 +1838,12 @@ class Frame(object):
             recv = self.ev(func.value, st)
             meth = func.attr
             ftext = '%s.%s' % (render(recv), meth)
+            if meth == '__setitem__' and len(node.args) == 2 and not kwargs and not any(isinstance(a, ast.Starred) for a in node.args):
+                # the explicit dunder call is the subscript store
+                fake = ast.copy_location(ast.Subscript(value=func.value, slice=node.args[0], ctx=ast.Store()), node)
+                ast.fix_missing_locations(fake)
+                self.assign(fake, args[1], st, node)
+                return Const(None)
             # int_to_bytes / bytes_to_int are modelled wherever they are reached from (axiom in sa/axioms.py)
             if meth == 'int_to_bytes' and args:
                 record(ftext)
@@ -1827,6 +1852,12 @@ class Frame(object):
                     o = kwargs.get('order', args[2] if len(args) > 2 else None)
                     return Bytes([('SYM', 'int_to_bytes(%s, %s, %s)' % (render(args[0]), render(w), render(o)))])
                 return Bytes([('INT', render(w), render(args[0]))])
+            if isinstance(recv, Const) and type(recv.value) in (str, bytes) and meth in PURE_STR_METHODS and not kwargs and \
+                    all(isinstance(a, Const) and type(a.value) in (str, bytes, int, tuple) for a in args):
+                try:     # constant folding of a pure text method on a literal (scenario-given keys such as 'h_Issuer')
+                    return Const(getattr(recv.value, meth)(*[a.value for a in args]))
+                except Exception:
+                    pass
             if isinstance(recv, Bytes) or (isinstance(func.value, ast.Name) and isinstance(st.env.get(func.value.id), Bytes)):
                 tgt = recv
                 if meth == 'append' and len(args) == 1:
@@ -1886,12 +1917,12 @@ class Frame(object):
             # hasher constructors reached as attributes
             if meth == 'hasher' and not args:
                 pass
-            if fname in ('hashlib.new',) and args:
+            if fname in ('hashlib.new',) and (args or 'name' in kwargs):
                 record(fname)
-                alg = render(args[0]).strip("'").lower()
+                alg = render(args[0] if args else kwargs['name']).strip("'").lower()
                 h = Hasher(alg)
-                if len(args) > 1:
-                    h.items.extend(as_items(args[1]))
+                if len(args) > 1 or 'data' in kwargs:
+                    h.items.extend(as_items(args[1] if len(args) > 1 else kwargs['data']))
                 return h
             if fname is not None and fname.startswith('hashlib.') and fname[8:] in HASHLIB_CTORS:
                 # hashlib.sha1([data]) is hashlib.new('sha1'[, data])
@@ -1972,6 +2003,15 @@ class Frame(object):
             if isinstance(callee, Sym) and callee.text != n and re.match(r'^[\w.()]+$', callee.text):
                 # a local that holds a callable value (bound method, function reference): the call is a call of that value
                 record(callee.text)
+                if callee.text.endswith('.int_to_bytes') and args and len(args) <= 2 and set(kwargs) <= {'minlen'}:
+                    w = args[1] if len(args) > 1 else kwargs.get('minlen', Const(1))       # the modelled bound method held in a local
+                    return Bytes([('INT', render(w), render(args[0]))])
+                return Sym('%s(%s)' % (callee.text, self._argtext(args, kwargs)))
+            if isinstance(callee, Sym) and callee.text != n and n not in self.fi.params and \
+                    (callee.text.startswith('{') or (re.match(r'^[\w.]+\(.*\)$', callee.text) and _balanced(callee.text))):
+                # a local holding the result of a dispatch on a display ({k: f}.get(x, g) / {k: f}[x]) or of a call that returns a
+                # callable (getattr(mod, name)): the call is a call of that value
+                record(callee.text)
                 return Sym('%s(%s)' % (callee.text, self._argtext(args, kwargs)))
             if n in ('bytearray', 'bytes'):
                 record(n)
@@ -2033,6 +2073,13 @@ class Frame(object):
                 record(n)
                 fake = ast.Attribute(value=node.args[0], attr=args[1].value, ctx=ast.Load())
                 return self.ev_Attribute(fake, st)
+            if n == 'setattr' and len(args) == 3 and not kwargs and isinstance(args[1], Const) and isinstance(args[1].value, str) and \
+                    args[1].value.isidentifier():
+                # setattr(x, 'name', v) with a decided name is the store x.name = v
+                record(n)
+                fake = ast.copy_location(ast.Attribute(value=node.args[0], attr=args[1].value, ctx=ast.Store()), node)
+                self.assign(fake, args[2], st, node)
+                return Const(None)
             if n in ('iter', 'list', 'tuple') and len(args) == 1 and isinstance(args[0], EachV) and not kwargs:
                 record(n)
                 return args[0]
@@ -2042,15 +2089,29 @@ class Frame(object):
                     record(n)
                     return fv
             if n in ('frozenset', 'set', 'tuple', 'list') and len(args) == 1 and not kwargs and isinstance(args[0], ListV) and \
-                    all(isinstance(e, Const) for e in args[0].elems):
+                    not any(isinstance(e, EachV) for e in args[0].elems):
                 record(n)
-                return ListV(args[0].elems, 'set' if n in ('set', 'frozenset') else n)     # a literal collection, whatever its container
+                return ListV(list(args[0].elems), 'set' if n in ('frozenset', 'set') else n)     # a known collection, whatever its container
             if n == 'iter' and len(args) == 1 and not kwargs and isinstance(args[0], Const) and isinstance(args[0].value, (tuple, list, bytes, bytearray)):
                 record(n)
                 return args[0]          # iterating iter(<literal sequence>) is iterating the sequence
+<<<<<<< HEAD
             if n in ('iter', 'list', 'tuple') and len(args) == 1 and isinstance(args[0], ListV) and not kwargs:
                 record(n)
                 return ListV(list(args[0].elems), 'tuple' if n == 'tuple' else 'list')
+=======
+            if n == 'zip' and args and not kwargs and all(isinstance(a, ListV) and not any(isinstance(e, EachV) for e in a.elems) for a in args):
+                record(n)
+                return ListV([ListV(list(t), 'tuple') for t in zip(*[a.elems for a in args])], 'list')
+            if n == 'enumerate' and len(args) == 1 and not kwargs and isinstance(args[0], ListV) and \
+                    not any(isinstance(e, EachV) for e in args[0].elems):
+                record(n)
+                return ListV([ListV([Const(i), e], 'tuple') for i, e in enumerate(args[0].elems)], 'list')
+            if n == 'divmod' and len(args) == 2 and not kwargs:
+                # divmod(a, b) == (a // b, a % b)
+                record(n)
+                return ListV([self.binop(ast.FloorDiv(), args[0], args[1]), self.binop(ast.Mod(), args[0], args[1])], 'tuple')
+>>>>>>> main
             if n == 'reversed' and len(args) == 1 and isinstance(args[0], ListV):
                 rev = []
                 for e in reversed(args[0].elems):
@@ -2374,7 +2435,8 @@ def normalise_path(p):
 
 
 PURE_STR_METHODS = ('startswith', 'endswith', 'find', 'rfind', 'index', 'count', 'lower', 'upper', 'strip', 'lstrip', 'rstrip',
-                    'isupper', 'islower', 'isdigit', 'isalpha', 'isalnum', 'isspace', 'replace', 'title', 'capitalize')
+                    'isupper', 'islower', 'isdigit', 'isalpha', 'isalnum', 'isspace', 'replace', 'title', 'capitalize', 'partition',
+                    'rpartition')
 
 OPS = {ast.Add: '+', ast.Sub: '-', ast.Mult: '*', ast.Div: '/', ast.FloorDiv: '//', ast.Mod: '%', ast.Pow: '**',
        ast.LShift: '<<', ast.RShift: '>>', ast.BitOr: '|', ast.BitAnd: '&', ast.BitXor: '^', ast.MatMult: '@',
